@@ -3,6 +3,6 @@
 cd "$(dirname "$0")/.."
 tier=${1:-quick}; seed=${2:-0}; shift 2 2>/dev/null
 ids="$@"; [ -z "$ids" ] && ids=$(python3 -c "import json;print(' '.join(c['property_id'] for c in json.load(open('MANIFEST.json'))['checks']))")
-mkdir -p /tmp/runall
-echo $ids | tr ' ' '\n' | xargs -P 4 -I{} sh -c "VERIF_SEED=$seed ./check {} --tier $tier > /tmp/runall/{}.log 2>&1; echo \"{} exit=\$?\" >> /tmp/runall/{}.log"
-for i in $ids; do grep -h "VIOLATION\|^\[$i\]\|exit=\|infrastructure" /tmp/runall/$i.log | cut -c1-220; done
+mkdir -p /tmp/runall_$$
+echo $ids | tr ' ' '\n' | xargs -P 4 -I{} sh -c "VERIF_SEED=$seed ./check {} --tier $tier > /tmp/runall_$$/{}.log 2>&1; echo \"{} exit=\$?\" >> /tmp/runall_$$/{}.log"
+for i in $ids; do grep -h "VIOLATION\|^\[$i\]\|exit=\|infrastructure" /tmp/runall_$$/$i.log | cut -c1-220; done
